@@ -7,6 +7,9 @@ McBoxCfgs == {<<>>, <<50, 50>>, <<49, 51>>}
 McNewCfgs == {<<100>>, <<50, 50>>}
 McReconfQuick == {<<>>, <<100>>, <<50, 50>>, <<49, 51>>}
 McReconfAll == Configs
+McExtraQuick == {<<1, 49, 50>>, <<49, 50, 51>>}
+McExtraThorough == {<<25, 25, 25, 25>>, <<1, 33, 33, 33>>}
+McNone == {}
 McNegNew == {<<100>>}
 McNegCfgs == {<<50, 50>>}
 ====
